@@ -71,6 +71,44 @@ fn check(v: &(Vec<AF>, Vec<FMsg>), rep: &mut Rep) -> Result<(), String> {
     Ok(())
 }
 
+/// the export plugin keeps enabled filters and writes exactly the kept messages (after its info message)
+fn export_plugin(v: &(Vec<AF>, Vec<FMsg>), rep: &mut Rep) -> Result<(), String> {
+    use adlt::plugins::export::ExportPlugin;
+    use adlt::plugins::plugin::Plugin;
+    let (set, msgs) = v;
+    let built: Vec<DltMessage> = msgs.iter().enumerate().map(|(i, m)| m.build(i as u32)).collect();
+    let sb = crate::props::c14::Sandbox::new("c12exp");
+    let file = sb.path("export.dlt");
+    let js: Vec<serde_json::Value> = set.iter().map(|f| serde_json::from_str(&to_json(f)).unwrap()).collect();
+    let cfg = serde_json::json!({"name":"Export","exportFileName":file.to_str().unwrap(),"filters":js});
+    let mut p = ExportPlugin::from_json(cfg.as_object().unwrap()).map_err(|e| format!("export plugin config refused: {}", e))?;
+    for m in built.iter() {
+        let mut m2 = m.clone();
+        ensure!(p.process_msg(&mut m2), "export plugin dropped a message from the stream");
+        ensure!(m2 == *m, "export plugin altered message {}", m.index);
+    }
+    p.sync_all();
+    drop(p);
+    let exp: Vec<&DltMessage> = msgs.iter().zip(built.iter()).filter(|(fm, _)| keep(set, fm, true)).map(|(_, m)| m).collect();
+    let got: Vec<DltMessage> = match std::fs::read(&file) {
+        Ok(d) => adlt::utils::DltMessageIterator::new(0, std::io::Cursor::new(d)).collect(),
+        Err(_) => vec![],
+    };
+    // leading info message(s) written by the plugin itself
+    let got: Vec<&DltMessage> = got.iter().skip_while(|m| m.apid().map_or(false, |a| a.as_buf() == b"VsDl")).collect();
+    ensure_eq!(got.len(), exp.len(), "number of exported messages (filters {})", to_json_set(set));
+    for (g, e) in got.iter().zip(exp.iter()) {
+        crate::props::c02::same_content(g, e).map_err(|x| format!("exported message differs from kept message {}: {}", e.index, x))?;
+    }
+    rep.label_if(!exp.is_empty() && exp.len() < built.len(), "proper_subset_exported");
+    rep.label_if(set.iter().any(|f| f.enabled && f.kind == 3), "event_filter");
+    rep.nontrivial = !exp.is_empty() && exp.len() < built.len();
+    Ok(())
+}
+fn to_json_set(set: &[AF]) -> String {
+    set.iter().map(to_json).collect::<Vec<_>>().join(",")
+}
+
 pub fn def(tier: Tier) -> PropertyDef {
     // simpler filters so that overlaps are frequent
     let simple = (0u8..4, prop::bool::weighted(0.85), prop::bool::weighted(0.15), prop::option::weighted(0.5, id_crit()), prop::option::weighted(0.4, id_crit()), prop::option::weighted(0.2, 0u8..7)).prop_map(|(kind, enabled, negated, ecu, apid, level_min)| AF {
@@ -88,14 +126,18 @@ pub fn def(tier: Tier) -> PropertyDef {
         lifecycles: None,
         explicit_regex_flags: true,
     });
-    let set = prop::collection::vec(prop_oneof![3 => simple, 1 => af()], 0..7);
+    let simple = simple.boxed();
+    let set = prop::collection::vec(prop_oneof![3 => simple.clone(), 1 => af().boxed()], 0..7);
     PropertyDef {
         id: "C12",
         rule: "0..6 M-FILTER filters of all four kinds (enabled/disabled, negated, overlapping) x streams of 0..40 messages; reference keep(set,msg) from the statement; (a) filter_as_streams: forwarded = kept, unchanged, in order, passed+filtered = received; (b) StreamContext::from(json)+match_filters = keep incl. the event rule. Non-trivial: a message matched by an enabled positive and an enabled negative filter, or >= 2 enabled event filters.",
         assumptions: vec!["match_filters is tested through StreamContext::from which drops disabled filters (as remote/search/export construct the container)"],
-        subs: vec![sub("filter_sets", tier.pick(300_000, 4_000_000), (set, prop::collection::vec(fmsg(), 0..40)), check)
+        subs: vec![
+            sub("export_plugin", tier.pick(8_000, 200_000), (prop::collection::vec(simple.clone(), 0..5), prop::collection::vec(fmsg(), 0..30)), export_plugin).rates(&[("proper_subset_exported", 0.2), ("event_filter", 0.1)]).boxed(),
+            sub("filter_sets", tier.pick(300_000, 4_000_000), (set, prop::collection::vec(fmsg(), 0..40)), check)
             .rates(&[("msg_matched_by_pos_and_neg", 0.05), ("only_negative", 0.03), ("ge2_event_filters", 0.05), ("disabled_filter", 0.1), ("marker_filter", 0.2)])
-            .boxed()],
+            .boxed(),
+        ],
         workers: 16,
     }
 }
